@@ -278,10 +278,10 @@ func (c *Conn) OpenUpstream(ctx context.Context, sessionID string, opts ...Upstr
 	var wireConn *wire.ClientConn // the wire connection that served the open request
 	var wireConnGeneration uint64
 	err := c.send(ctx, func(ctx context.Context) error {
-		c.wireConnMu.Lock()
-		defer c.wireConnMu.Unlock()
-		wireConn, wireConnGeneration = c.wireConn, c.wireConnGeneration
-		r, err := c.wireConn.SendUpstreamOpenRequest(ctx, &message.UpstreamOpenRequest{
+		// the mutex guards the field, not the exchange: holding it while waiting for the response would make every
+		// other request wait for this one regardless of its own context
+		wireConn, wireConnGeneration = c.currentWireConn()
+		r, err := wireConn.SendUpstreamOpenRequest(ctx, &message.UpstreamOpenRequest{
 			SessionID:      upconf.SessionID,
 			AckInterval:    *upconf.AckInterval,
 			ExpiryInterval: upconf.ExpiryInterval,
@@ -581,9 +581,8 @@ func (c *Conn) SendMetadata(ctx context.Context, meta message.SendableMetadata, 
 				Persist: opt.Persist,
 			},
 		}
-		c.wireConnMu.Lock()
-		defer c.wireConnMu.Unlock()
-		resp, err := c.wireConn.SendUpstreamMetadata(ctx, upmeta)
+		wireConn, _ := c.currentWireConn()
+		resp, err := wireConn.SendUpstreamMetadata(ctx, upmeta)
 		if err != nil {
 			return err
 		}
@@ -634,11 +633,15 @@ func (c *Conn) observeConnClose(ctx context.Context) error {
 
 func (c *Conn) reconnect(ctx context.Context) error {
 	c.wireConnMu.Lock()
-	defer c.wireConnMu.Unlock()
 	if !c.state.CompareAndSwapNot(connStatusClosed, connStatusReconnecting) {
+		c.wireConnMu.Unlock()
 		return errors.ErrConnectionClosed
 	}
 	c.wireConn.Close()
+	// the redial below can take as long as the outage lasts: it must not hold the mutex, or every call that reads the
+	// wire connection (and Close) would wait for it regardless of its context. Meanwhile callers find the closed
+	// connection, get ErrConnectionClosed and wait for the status "connected" under their own context.
+	c.wireConnMu.Unlock()
 
 	oc := c.Config
 	if oc.PingTimeout.Seconds() == 0 {
@@ -663,11 +666,17 @@ func (c *Conn) reconnect(ctx context.Context) error {
 	if err := resErr; err != nil {
 		return resErr
 	}
+	c.wireConnMu.Lock()
+	defer c.wireConnMu.Unlock()
 	c.wireConn = res
 	c.wireConnGeneration = c.state.Reconnects()
 	if !c.state.CompareAndSwap(connStatusReconnecting, connStatusConnected) {
-		// Close was called while the redial was in progress. It is waiting for wireConnMu and will
-		// send Disconnect on, and close, the wire connection installed above.
+		// Close was called while the redial was in progress and has dealt with the old connection already; the
+		// one dialled meanwhile is ended here.
+		if err := res.SendDisconnect(ctx, &message.Disconnect{ResultCode: message.ResultCodeNormalClosure, ResultString: "NormalClosure"}); err != nil {
+			c.logger.Warnf(ctx, "Failed to send Disconnect: %+v", err)
+		}
+		res.Close()
 		return errors.ErrConnectionClosed
 	}
 	return nil
